@@ -9,8 +9,7 @@ theorem u16_ite (l : Bytes) : u16 l = if 2 ≤ l.length then X.ok (u16v l) else 
   | [] => rfl
   | [_] => rfl
   | a :: c :: r => simp [u16, u16v]
-def u32v (l : Bytes) : UInt32 :=
-  ((l.getD 0 0).toUInt32 <<< 24) ||| ((l.getD 1 0).toUInt32 <<< 16) ||| ((l.getD 2 0).toUInt32 <<< 8) ||| (l.getD 3 0).toUInt32
+def u32v (l : Bytes) : UInt32 := UInt32.ofNat (beN (l.take 4))
 theorem u32_ite (l : Bytes) : u32 l = if 4 ≤ l.length then X.ok (u32v l) else X.panic := by
   match l with
   | [] => rfl
